@@ -9,9 +9,7 @@ Models (each a transcription following the Python control flow):
 Rust side: `ClvmModel/Serde/Classic.lean` (`node_to_stream`, `node_from_stream`), `ClvmModel/Alloc/IntEnc.lean`
 (`encodeInt`, `decodeInt`), `ClvmModel/TreeHash.lean` (`treeHash`).
 
-`py_de ≃ de` is FALSE of the code as it is (finding H: `_atom_from_stream` accepts a 7-byte size
-prefix): full statement as `DeStatement`, `py_de_partial` outside the decidable region `hits7`,
-`py_de_witness` inside it.
+`py_de ≃ de` is the full theorem `py_de_eq_rust` since the repair of finding H (/repo 61f724c).
 
 Not proved here: "running a curried program equals running the module with the curried arguments
 prepended to the environment" (`curry_run_eq`: needs the interpreter model); it is checked by the
@@ -69,41 +67,42 @@ theorem py_thresholds_eq_rust : Gen.pySizeThresholds = Gen.writeAtomThresholds :
 def AgreeOn (inp : Bytes) : Prop :=
   DeLemmas.Agree (De.sexpFromStream inp) (nodeFromStream inp [.sexp] [])
 
-/-- the property as stated: the stream deserializer accepts exactly what the Rust classic decoder
-accepts and yields the same tree (and consumes the same bytes) -/
-def DeStatement : Prop := ∀ inp : Bytes, AgreeOn inp
-
-/-- **Partial (outside the defect region).**  On every input on which the readers never reach an
-atom starting with `0xfe` (a 7-byte size prefix), `sexp_from_stream` and `node_from_stream` agree. -/
-theorem py_de_partial (inp : Bytes) (h : DeLemmas.hits7 inp [.sexp] = false) : AgreeOn inp := by
-  have := DeLemmas.loop_agree inp [.sexp] [] h
+/-- **`py_de ≃ de`.**  For every byte string, the pure-Python stream deserializer accepts exactly
+what the Rust classic decoder accepts, yields the same tree and leaves the same bytes unread.
+(Before /repo commit 61f724c this was false: finding H, a 7-byte size prefix was accepted by Python;
+the old transcription and its witness are in `Lemmas/PyDe.lean`, section "historical".) -/
+theorem py_de_eq_rust (inp : Bytes) : AgreeOn inp := by
+  have := DeLemmas.loop_agree inp [.sexp] []
   simpa [AgreeOn, De.sexpFromStream, DeLemmas.opMap] using this
 
-/-- **Witness (finding H).**  `fe 00 00 00 00 00 01 41`: Python returns the atom `A` having consumed
-all 8 bytes, Rust rejects; the input is in the region. -/
-theorem py_de_witness :
-    De.sexpFromStream DeLemmas.witnessH = .ok (.atom [0x41], []) ∧
-    (∃ e, nodeFromStream DeLemmas.witnessH [.sexp] [] = .error e) ∧
-    DeLemmas.hits7 DeLemmas.witnessH [.sexp] = true :=
-  ⟨DeLemmas.py_accepts_witness, DeLemmas.rust_rejects_witness, DeLemmas.witness_in_region⟩
+/-- acceptance sets coincide -/
+theorem py_de_accepts_iff (inp : Bytes) :
+    (∃ r, De.sexpFromStream inp = .ok r) ↔ (∃ r, nodeFromStream inp [.sexp] [] = .ok r) := by
+  have h := py_de_eq_rust inp
+  unfold AgreeOn at h
+  cases hp : De.sexpFromStream inp <;> cases hr : nodeFromStream inp [.sexp] [] <;>
+    rw [hp, hr] at h <;> simp [DeLemmas.Agree] at h ⊢
 
-theorem de_statement_false : ¬ DeStatement := by
-  intro h
-  have := h DeLemmas.witnessH
-  obtain ⟨e, he⟩ := DeLemmas.rust_rejects_witness
-  simp [AgreeOn, DeLemmas.py_accepts_witness, he, DeLemmas.Agree] at this
+/-- … and on acceptance the results are equal -/
+theorem py_de_same_result (inp : Bytes) (r : Tree × Bytes) :
+    De.sexpFromStream inp = .ok r ↔ nodeFromStream inp [.sexp] [] = .ok r := by
+  have h := py_de_eq_rust inp
+  unfold AgreeOn at h
+  cases hp : De.sexpFromStream inp <;> cases hr : nodeFromStream inp [.sexp] [] <;>
+    rw [hp, hr] at h <;> simp [DeLemmas.Agree] at h ⊢
+  subst h; rfl
 
-/-- outside the region the Python reader inverts the Python writer and the Rust writer alike:
-`sexp_from_stream (sexp_to_bytes t ++ rest) = (t, rest)` (from the Rust round trip) -/
-theorem py_de_py_ser (t : Tree) (ht : t.atomsBelow (2 ^ 34)) (rest : Bytes)
-    (h : DeLemmas.hits7 (serSpec t ++ rest) [.sexp] = false) :
+/-- the Python reader inverts the Python writer (and the Rust writer):
+`sexp_from_stream (sexp_to_bytes t ++ rest) = (t, rest)` -/
+theorem py_de_py_ser (t : Tree) (ht : t.atomsBelow (2 ^ 34)) (rest : Bytes) :
     De.sexpFromStream (serSpec t ++ rest) = .ok (t, rest) := by
-  have ha := py_de_partial _ h
-  unfold AgreeOn at ha
-  rw [nodeFromStream_ser t ht rest [] [], nodeFromStream] at ha
-  cases hp : De.sexpFromStream (serSpec t ++ rest) with
-  | error e => rw [hp] at ha; simp [DeLemmas.Agree] at ha
-  | ok v => rw [hp] at ha; simp only [DeLemmas.Agree] at ha; rw [ha]
+  rw [py_de_same_result, nodeFromStream_ser t ht rest [] [], nodeFromStream]
+
+/-- the 7-byte example of the former finding H is now rejected by both readers -/
+theorem py_de_rejects_7byte_prefix :
+    (∃ e, De.sexpFromStream DeLemmas.witnessH = .error e) ∧
+    (∃ e, nodeFromStream DeLemmas.witnessH [.sexp] [] = .error e) :=
+  ⟨DeLemmas.new_rejects_witness, DeLemmas.rust_rejects_witness⟩
 
 /-- the `blob too large` bound of ser.py is the decoder bound of parse_atom.rs -/
 theorem py_size_bound_eq_rust : Gen.pyBlobTooLarge = Gen.decodeSizeMax := by decide
